@@ -161,6 +161,45 @@ func init() {
 		}
 		return x.tb.Int(-1)
 	})
+	// three-way comparison of byte sequences (runtime.cmpstring / bytealg.Compare are assembly)
+	cmpBytes := func(x *Exec, a, b []*Term) value {
+		n := len(a)
+		if len(b) < n {
+			n = len(b)
+		}
+		for i := 0; i < n; i++ {
+			if x.branch(x.tb.Eq(a[i], b[i])) {
+				continue
+			}
+			if x.branch(x.tb.Ult(a[i], b[i])) {
+				return x.tb.Int(-1)
+			}
+			return x.tb.Int(1)
+		}
+		switch {
+		case len(a) < len(b):
+			return x.tb.Int(-1)
+		case len(a) > len(b):
+			return x.tb.Int(1)
+		}
+		return x.tb.Int(0)
+	}
+	for _, name := range []string{"internal/bytealg.CompareString", "internal/bytealg.abigen_runtime_cmpstring", "runtime.cmpstring"} {
+		reg(name, func(x *Exec, fr *frame, args []value) value {
+			return cmpBytes(x, x.bytesOf(args[0].(strVal)), x.bytesOf(args[1].(strVal)))
+		})
+	}
+	reg("internal/bytealg.Compare", func(x *Exec, fr *frame, args []value) value {
+		conv := func(v value) []*Term {
+			sl := v.(sliceVal)
+			out := make([]*Term, len(sl.a))
+			for i := range sl.a {
+				out[i] = sl.a[i].(*Term)
+			}
+			return out
+		}
+		return cmpBytes(x, conv(args[0]), conv(args[1]))
+	})
 	reg("internal/bytealg.CountString", func(x *Exec, fr *frame, args []value) value {
 		s := args[0].(strVal)
 		c := args[1].(*Term)
